@@ -88,10 +88,8 @@ pub mod ax {
 // ---- specification vocabulary -----------------------------------------------------------------
 /// the instant of a Time
 pub open spec fn tat(t: Time) -> int { at(t.0) }
-/// "a validity window accepts an evaluation time exactly when not-before <= time <= not-after"
-pub open spec fn in_window(v: Validity, t: int) -> bool {
-    tat(v.not_before) <= t <= tat(v.not_after)
-}
+// `in_window` -- shared with the units that assume Validity::verify_at through a contract link
+//@include shared/time_vocab.v.rs
 
 impl ValidityPeriodError {
     //@fn src/repository/x509.rs :: impl ValidityPeriodError :: too_new
